@@ -156,6 +156,12 @@ func (e *FieldExpression) Evaluate(ctx *Context, input system.Collection) (syste
 				}
 			}
 
+			// Snake-casing does not round-trip names with digits or consecutive
+			// capitals (lethalDose50, carrierAIDC, requestURL): the JSON name of a
+			// proto field is the FHIR element name.
+			field = reflect.Descriptor().Fields().ByJSONName(e.FieldName)
+		}
+		if field == nil {
 			// Try again with "_value" added because sometimes Google protos do that
 			// for primitives like:
 			// Observation.ValueX.String --> Observation_ValueX_StringValue
@@ -259,7 +265,8 @@ func (e *FieldExpression) isEvaluable(msg proto.Message) bool {
 
 	// Prevent snake_case fields, since all FHIRPath fields need to be in
 	// camelCase.
-	if strcase.ToLowerCamel(e.FieldName) != e.FieldName {
+	if strcase.ToLowerCamel(e.FieldName) != e.FieldName &&
+		msg.ProtoReflect().Descriptor().Fields().ByJSONName(e.FieldName) == nil {
 		return false
 	}
 
